@@ -1,5 +1,6 @@
 """C11 - an I/O error never corrupts the index nor is silently swallowed.
-M: FaultProto: how a worker / commit-task failure travels to the caller; negative configuration
+M: FaultProto: how a worker / commit-task failure travels to the caller; KillGcProto: a task queued before the
+   updater was killed must not collect (F55; dedicated gate-driven schedule `fault_driver killgc`); negative configuration
    (a dead writer that accepts work again = the repaired defect F5) must fail.
 R/T: fault enumeration: for each of three workloads the storage operations of the fault-free run
    are counted; operation k fails (once / from k on, before or after taking effect) for every k
@@ -76,6 +77,14 @@ def run(ctx):
     fp = ctx.path("f40.ndjson")
     vlib.run_bin("fault_driver", ["f40", "--out", fp], timeout=120)
     ev += vlib.read_ndjson(fp)
+    # dedicated reproduction of finding F55 (repaired): the directory gate parks the merge thread, releases it when the
+    # commit task reaches its second sync_directory, waits until the end_merge task is queued behind it, then the sync
+    # fails (KillGcProto: CommitFail(TRUE) with the merge "queued", then EndMergeTask)
+    kp = ctx.path("killgc.ndjson")
+    vlib.run_bin("fault_driver", ["killgc", "--out", kp], timeout=120)
+    kev = vlib.read_ndjson(kp)
+    ctx.cov["killgc_schedule_realised"] = any(e.get("ev") == "schedule" and e.get("realised") for e in kev)
+    ev += kev
     # every transient fault in a publication step (meta.json / .managed.json replacement, directory
     # sync) of a workload that collects and reloads between its commits and its merge, writer kept
     pp = ctx.path("publish.ndjson")
